@@ -643,7 +643,7 @@ class AttrSpec:
 
     def __hash__(self) -> int:
         """Instance is immutable and hashable."""
-        return hash((self.__class__, self.__value))
+        return hash((AttrSpec, self.__value))  # (consistent with __eq__, which does not look at the class)
 
     @property
     def _value(self) -> int:
